@@ -235,8 +235,8 @@ func (s *Service) Open() error {
 }
 
 func (s *Service) Close() error {
-	s.mu.Lock()
-	defer s.mu.Unlock()
+	// Closing the topics delivers the events still queued for their handlers and must not hold s.mu:
+	// a publish (or aggregate) handler delivers through Collect, which takes s.mu.
 	s.topics.Close()
 	return s.APIServer.Close()
 }
@@ -694,22 +694,25 @@ type closer interface {
 
 func (s *Service) DeregisterHandlerSpec(topic, handler string) error {
 	s.mu.Lock()
-	defer s.mu.Unlock()
-
 	h, ok := s.handlers[topic][handler]
-
 	if ok {
 		// Delete handler spec
 		if err := s.specsDAO.Delete(topic, handler); err != nil {
+			s.mu.Unlock()
 			return err
 		}
+		delete(s.handlers[h.Spec.Topic], handler)
+	}
+	s.mu.Unlock()
+
+	if ok {
+		// This delivers the events still queued for the handler and must not hold s.mu:
+		// a publish (or aggregate) handler delivers through Collect, which takes s.mu.
 		s.topics.DeregisterHandler(topic, h.Handler)
 
 		if ha, ok := h.Handler.(closer); ok {
 			ha.Close()
 		}
-
-		delete(s.handlers[h.Spec.Topic], handler)
 	}
 	return nil
 }
@@ -727,30 +730,41 @@ func (s *Service) UpdateHandlerSpec(oldSpec, newSpec HandlerSpec) error {
 		return err
 	}
 
+	oldH, err := s.replaceHandlerSpec(oldSpec, newSpec, newH)
+	if err != nil {
+		return err
+	}
+	// This delivers the events still queued for the old handler and must not hold s.mu:
+	// a publish (or aggregate) handler delivers through Collect, which takes s.mu.
+	s.topics.ReplaceHandler(topic, oldH.Handler, newH.Handler)
+	return nil
+}
+
+// replaceHandlerSpec stores the new spec and enters its handler in place of the old one, it returns the old handler.
+func (s *Service) replaceHandlerSpec(oldSpec, newSpec HandlerSpec, newH handler) (handler, error) {
 	s.mu.Lock()
 	defer s.mu.Unlock()
 
+	topic := newSpec.Topic
 	oldH := s.handlers[topic][oldSpec.ID]
 
 	// Persist new handler specs
 	if newSpec.ID == oldSpec.ID {
 		if err := s.specsDAO.Replace(newSpec); err != nil {
-			return err
+			return oldH, err
 		}
 	} else {
 		if err := s.specsDAO.Create(newSpec); err != nil {
-			return err
+			return oldH, err
 		}
 		if err := s.specsDAO.Delete(oldSpec.Topic, oldSpec.ID); err != nil {
-			return err
+			return oldH, err
 		}
 	}
 
 	delete(s.handlers[topic], oldSpec.ID)
 	s.setTopicHandler(newSpec.Topic, newSpec.ID, newH)
-
-	s.topics.ReplaceHandler(topic, oldH.Handler, newH.Handler)
-	return nil
+	return oldH, nil
 }
 
 // TopicState returns the state for the specified topic.
